@@ -215,12 +215,15 @@ pub fn property() -> Property {
     let c = "REGIMES. every look-at / model-look-at variant (lh, rh, deprecated aliases, both layouts, Vec3 / Vec4 / array / tuple operands) with the eye-target distance, |up| and the eye position scaled exactly by independent powers of two over the whole range in which one squared length stays finite and normal (f32: distance 2^-58..2^62, |up| 2^-54..2^60, |eye| up to 2^12 * distance and down to 2^-100; f64: 2^-500..2^504, 2^-495..2^502, 2^40 * distance, 2^-900); view directions along / next to the coordinate axes, up = a coordinate axis; judged in f64 against the frame the property determines, rotation entries to 128 eps / sin(up, forward), translations relative to |eye|, images of target relative to |eye| + |target| and (rotation part) to the distance, up relative to |up|";
     tape!("look-at-regime-f32", c, 160, 30_000, 4_000_000, regime::look_at_regime::<f32>);
     tape!("look-at-regime-f64", c, 160, 30_000, 4_000_000, regime::look_at_regime::<f64>);
+    let e = "STEEP cameras. every look-at / model-look-at variant (lh, rh, deprecated aliases, both layouts) with a small legal angle a between up and the view direction, on the parallel and on the antiparallel side, a log-uniform from 0.5 rad down to 1e-3 (f32) / 1e-7 (f64), and with up almost exactly perpendicular (|cos| log-uniform 1e-3 .. 1e-12); distance and |up| at unit scale and scaled by independent powers of two. RIGIDITY with tolerances that do not grow like 1/a^2: |axis|^2 = 1 and det = 1 to 24 eps (+ (8 eps / sin a)^2), side . up' = 0 to 12 eps, side . forward and up' . forward = 0 to 12 eps + 8 eps / sin a, model * view = view * model = I to 24 eps + 16 eps / sin a, on view rows and model columns; ROLL (side and up' axes) against an oracle whose cross product is evaluated with error-free transformations, to 64 eps / sin a; forward axis to 12 eps; eye -> 0, target - eye -> (0,0,+-distance), up -> x = 0, y > 0";
+    tape!("look-at-steep-f32", e, 160, 30_000, 4_000_000, regime::look_at_steep::<f32>);
+    tape!("look-at-steep-f64", e, 160, 30_000, 4_000_000, regime::look_at_steep::<f64>);
     let d = "REGIMES. local_to_basis with arbitrary vectors and origins at every finite magnitude (independent powers of two, MAX, MIN_POSITIVE, subnormals): columns are exactly i, j, k, origin; basis_to_local / local_to_basis with orthonormal bases (signed permutations of the axes, tiny rotations of them, rational rotations; proper and improper) and origins scaled by 2^-100..2^100 (f32) / 2^-900..2^1000 (f64): inverse of each other blockwise, origin -> 0 relative to |origin|, basis vectors -> unit axes";
     tape!("basis-regime-f32", d, 200, 20_000, 2_000_000, regime::basis_regime::<f32>);
     tape!("basis-regime-f64", d, 200, 20_000, 2_000_000, regime::basis_regime::<f64>);
     Property {
         id: "C09",
-        rule: "views built from a rational orthonormal frame: target = eye + L*forward with L spanning 2^-12..2^12, up = scale*(a*u + b*forward) with a > 0, b usually != 0 and scale spanning 2^-36..2^20 (so every normalisation is rational), plus random float views incl. tiny/huge up vectors; bases: arbitrary vectors and rational rotations (1/3 improper); non-trivial = eye, direction and up have three non-zero components and up is not perpendicular; distinct = distinct consumed tape prefix. REGIME checks (f32 and f64): a view direction from {rational frame, exactly along a coordinate axis, next to one (offsets 2^-1..2^-30 / 2^-60), random} and an up vector from {a*u + b*forward, a coordinate axis, random} (sine of the angle >= 0.12 by construction), then distance, |up| and eye scaled exactly by independent powers of two (half of the cases at unit scale, the rest stratified: moderate, next to either end of the range, outer halves, uniform), eye up to 2^12 (f32) / 2^40 (f64) times the distance (target = eye + d rounded into the type, everything measured on the rounded values), eye at the origin in 1/16; bases: arbitrary vectors with independent scales 2^-120..2^120 / 2^-1000..2^1000 and entries MAX / MIN_POSITIVE / subnormal, orthonormal bases = signed permutation x {identity, rotation by 2^-2..2^-12 / 2^-25, rational rotation}, origin 2^-100..2^100 / 2^-900..2^1000; regime non-trivial = eye (origin), target - eye and up (two basis vectors) have three non-zero components and up is not perpendicular (so axis-aligned cases count as trivial and are reported by label only)",
+        rule: "views built from a rational orthonormal frame: target = eye + L*forward with L spanning 2^-12..2^12, up = scale*(a*u + b*forward) with a > 0, b usually != 0 and scale spanning 2^-36..2^20 (so every normalisation is rational), plus random float views incl. tiny/huge up vectors; bases: arbitrary vectors and rational rotations (1/3 improper); non-trivial = eye, direction and up have three non-zero components and up is not perpendicular; distinct = distinct consumed tape prefix. REGIME checks (f32 and f64): a view direction from {rational frame, exactly along a coordinate axis, next to one (offsets 2^-1..2^-30 / 2^-60), random} and an up vector from {a*u + b*forward, a coordinate axis, random} (sine of the angle >= 0.12 by construction), then distance, |up| and eye scaled exactly by independent powers of two (half of the cases at unit scale, the rest stratified: moderate, next to either end of the range, outer halves, uniform), eye up to 2^12 (f32) / 2^40 (f64) times the distance (target = eye + d rounded into the type, everything measured on the rounded values), eye at the origin in 1/16; bases: arbitrary vectors with independent scales 2^-120..2^120 / 2^-1000..2^1000 and entries MAX / MIN_POSITIVE / subnormal, orthonormal bases = signed permutation x {identity, rotation by 2^-2..2^-12 / 2^-25, rational rotation}, origin 2^-100..2^100 / 2^-900..2^1000; regime non-trivial = eye (origin), target - eye and up (two basis vectors) have three non-zero components and up is not perpendicular (so axis-aligned cases count as trivial and are reported by label only). STEEP checks (f32 and f64): an orthonormal pair (forward, w) from {rational frame, along / next to a coordinate axis, random}; up = |up| (cos a forward + sin a w) with, in 3/8 of the cases each, a = 0.5 * 2^-x rad on the parallel and on the antiparallel side (x uniform in 0..9 for f32, 0..22.3 for f64, i.e. a log-uniform down to 1e-3 / 1e-7), and in 2/8 cos a = +-1e-3 * 2^-x (x uniform in 0..30) next to perpendicular; distance 2^kd * [1,16], |up| 2^ku * [3/4,4) with kd, ku = 0 in a quarter of the draws each and otherwise stratified over the regime range (|up| kept 2^12 / 2^26 above its lower end so that |up|^2 sin^2 a stays normal), eye = 2^(kd-6..kd+2) * [-20,20]^3 or 0; the angle is re-measured on the inputs as rounded into S; steep non-trivial = target - eye and up have three non-zero components (and cos != 0 in the perpendicular family)",
         assumptions: &[
             "rustc and the proptest runner/shrinker are trusted",
             "precondition from the property: eye != target and up not parallel to the view direction; float cases within 0.02 rad of parallel are discarded, tolerance scaled by 1/sin^2(angle)",
@@ -228,6 +231,8 @@ pub fn property() -> Property {
             "regime checks: the oracle is the frame the clauses determine uniquely (third row +-unit(target - eye), first row the unit normal of up and forward oriented by det = +1 and up.y > 0), computed in f64 from the inputs as rounded into S with every squared length taken on a copy rescaled exactly by a power of two; for S = f64 the oracle's own rounding is inside the 128 eps / sin(up, forward) budget",
             "regime range = where the arithmetic the property itself needs is finite and normal: ONE squared length of target - eye (f32 2^-58..2^62, f64 2^-500..2^504), one of up x forward (|up| f32 2^-54..2^60, f64 2^-495..2^502) and dot products with the eye; beyond it (|target - eye|^2 or |up|^2 overflowing / underflowing, where vek's own normalisation returns 0, inf or NaN) nothing is asserted, and IEEE specials (inf, NaN) as inputs are not generated",
             "an eye more than 2^12 (f32) / 2^40 (f64) times the distance away is not generated: target = eye + d then has too few significant bits left for a direction (cancellation in target - eye is the caller's business); in the regime checks views within 0.05 rad (sine) of parallel after rounding are discarded (none occur by construction)",
+            "steep cameras: only the roll (direction of the side and up' axes around the view axis) is ill-conditioned, eps / sin a for ANY implementation, and is compared to 64 eps / sin a with an oracle whose cross product up x (target - eye) is evaluated with error-free transformations (two_sum / fma two_prod) on exactly rescaled copies; unit length of every axis, side . up' and the determinant are asserted to fixed multiples of eps (24 / 12 / 24, worst case by operation count 13 / 4 / 13.5, observed <= 5 / 1 / 5 on the unchanged tree); the dots of the two roll axes with forward get a FIRST-order allowance 8 eps / sin a (measured on the unchanged tree: side . forward = 0.39 eps / sin a, from the rounding of the products of up x forward projected onto forward - so the claim 'mutually orthogonal to a few ulps at every angle' does not hold for side . forward even in the unchanged code; up' . forward is <= 1 eps there but gets the same allowance, the property does not say which roll axis is derived from which) and nothing grows like 1 / sin^2 a except where the first-order term enters squared",
+            "steep cameras: angles below 1e-3 rad (f32) / 1e-7 rad (f64) are not generated (eps / a then approaches the size of the axes themselves; up parallel to the view direction is excluded by the property); cases whose re-measured sine fell below half of that after rounding would be discarded (none occur)",
             "translations and images of points are judged relative to the magnitude that enters them (|eye|, |eye| + |target|, distance, |up|, |origin|), never max(1, ..): the view matrix must send the eye to 0 within 64 eps |eye| also for a tiny eye",
             "basis_to_local documents i, j, k as 'required to be normalized': the inverse clause is only asserted for orthonormal bases (orthonormal to rounding, 64 eps), with origin + basis vector -> unit axis split by linearity into origin -> 0 (relative to |origin|) and basis vector -> unit axis (o + i is not representable next to a huge origin); local_to_basis performs no arithmetic, so 'columns are exactly i, j, k, origin' is asserted for arbitrary vectors at every finite magnitude",
         ],
